@@ -26,6 +26,13 @@ func SanityChecksTypeDefinitions(typesDefs []SessionTypeDefinition) error {
 		if err != nil {
 			return err
 		}
+
+		// The mode recorded for the definition (the one every reference to it is compared with)
+		// has to be the mode of its body; inference can record another one for an alias
+		// (type A = B) inside a cycle of definitions with conflicting modes
+		if j.Modality != nil && !j.SessionType.Modality().Equals(j.Modality) {
+			return fmt.Errorf("mode of type definition '%s' (%s) does not match the mode of its body '%s' (%s)", j.Name, j.Modality.String(), j.SessionType.String(), j.SessionType.Modality().String())
+		}
 	}
 
 	// Ensures that the labelled types are contractive
